@@ -828,3 +828,52 @@ RECIPES += [
      '    haderr = 0\n    top = np.reshape(rb, (n, 6, 6))[:, :3, :]\n    R_all = np.linalg.pinv(top[..., :3]) @ top[..., 3:]\n    for j in range(n):\n        row = j * 6\n        R = R_all[j]\n',
      'rbcoords: all nodes fitted at once with a stacked pseudo-inverse (own refactoring)'),
 ]
+
+GETLOC = "        refpoint = uset_dof1.index.get_loc((refpoint, 1))\n"
+SORTSTEP = "    # Sort idof according to uset:\n    pv = locate.mat_intersect(idof, usetdof, 2)[0]\n"
+RECIPES += [
+    # ---- pass 5: look-ups / sorts that presuppose an order of the ids of the USET table (round-5 seeds L, P) and correct variants
+    ("C14", "break", ["C14-R2"], N, GETLOC,
+     '        gids = uset_dof1.index.get_level_values("id").values\n        refpoint = int(np.searchsorted(gids, np.asarray(refpoint).item()))\n',
+     "rbgeom_uset: reference grid located by bisection on the id level (round-5 seed P)"),
+    ("C14", "break", ["C14-R2"], N, GETLOC, "        refpoint = int(np.sum(uset_dof1.index.get_level_values(0) < refpoint))\n",
+     "rbgeom_uset: reference grid located by its rank among the ids"),
+    ("C14", "break", ["C14-R2"], N, GETLOC, "        refpoint = np.unique(uset_dof1.index.get_level_values(0)).tolist().index(int(refpoint))\n",
+     "rbgeom_uset: reference grid located by its position among the unique (sorted) ids"),
+    ("C14", "break", ["C14-R2"], N, GETLOC, "        refpoint = sorted(uset_dof1.index.get_level_values(0)).index(refpoint)\n",
+     "rbgeom_uset: reference grid located in the sorted id list"),
+    ("C14", "break", ["C14-R2"], N, GETLOC,
+     "        gids = uset_dof1.index.get_level_values(0).values\n        refpoint = np.argsort(gids)[np.flatnonzero(gids == refpoint)[0]]\n",
+     "rbgeom_uset: position of the reference grid sent through the argsort of the ids"),
+    ("C14", "neutral", [], N, GETLOC, "        refpoint = np.flatnonzero(uset_dof1.index.get_level_values(0) == refpoint)[0]\n",
+     "rbgeom_uset: reference grid located with flatnonzero on the id level"),
+    ("C14", "neutral", [], N, GETLOC, '        refpoint = list(uset_dof1.index.get_level_values("id")).index(refpoint)\n',
+     "rbgeom_uset: reference grid located with list.index"),
+    ("C14", "neutral", [], N, GETLOC, '        refpoint = int(np.argmax(uset_dof1.index.get_level_values("id").values == refpoint))\n',
+     "rbgeom_uset: reference grid located with argmax of the equality mask"),
+    ("C14", "neutral", [], N, GETLOC,
+     "        gids = uset_dof1.index.get_level_values(0).values\n        order = np.argsort(gids)\n        refpoint = order[np.searchsorted(gids[order], refpoint)]\n",
+     "rbgeom_uset: bisection on the ids *after sorting them* (sorter idiom): the order is established by the code itself"),
+    ("C14", "break", ["C14-R4"], N, SORTSTEP,
+     "    # Sort idof according to uset (by id, then dof):\n    pv = np.lexsort((idof[:, 1], idof[:, 0]))\n",
+     "formrbe3: independent DOF sorted by (id, dof) instead of by occurrence in the table (round-5 seed L)"),
+    ("C14", "break", ["C14-R4"], N, SORTSTEP, '    pv = np.argsort(idof[:, 0], kind="stable")\n', "formrbe3: independent DOF sorted by id (stable argsort)"),
+    ("C14", "break", ["C14-R4"], N, SORTSTEP, "    pv = np.unique(idof[:, 0] * 10 + idof[:, 1], return_index=True)[1]\n",
+     "formrbe3: independent DOF ordered through np.unique of a combined key"),
+    ("C14", "break", ["C14-R4"], N, SORTSTEP, "    pv = np.array(sorted(range(len(idof)), key=lambda k: (idof[k, 0], idof[k, 1])))\n",
+     "formrbe3: independent DOF ordered with sorted(...) on (id, dof)"),
+    ("C14", "break", ["C14-R4"], N, SORTSTEP, "    pv = locate.mat_intersect(idof, usetdof, 1)[0]\n",
+     "formrbe3: ordering step loops over the DOF list instead of the table (the list keeps the caller's order)"),
+    ("C14", "neutral", [], N, SORTSTEP, "    pv = locate.mat_intersect(usetdof, idof, 1)[1]\n",
+     "formrbe3: ordering step with the arguments of mat_intersect swapped (loop over the table, second index vector)"),
+    ("C14", "neutral", [], N, SORTSTEP, "    pv = locate.mat_intersect(D1=idof, D2=usetdof, keep=2)[0]\n", "formrbe3: ordering step with keywords"),
+    ("C14", "neutral", [], N, SORTSTEP,
+     '    where = locate.mat_intersect(idof, usetdof, 1)[1]\n    pv = np.argsort(where, kind="stable")\n',
+     "formrbe3: DOF sorted by their *position of occurrence* in the table (a key sort, but on the table's own order)"),
+    ("C14", "neutral", [], N, SORTSTEP,
+     "    pv = np.array([k for r in usetdof for k in range(len(idof)) if (idof[k] == r).all()])\n",
+     "formrbe3: ordering step spelled as an explicit double loop over table rows and list rows"),
+    ("C14", "neutral", [], N, "    usetdof = uset.iloc[:, :0].reset_index().values\n    idof = []",
+     "    usetdof = np.column_stack((uset.index.get_level_values(0), uset.index.get_level_values(1)))\n    idof = []",
+     "formrbe3: [id, dof] table stacked from the two index levels"),
+]
